@@ -18,14 +18,14 @@ use std::process::{Command, Stdio};
 pub fn meta() -> Meta {
     Meta {
         id: "C17",
-        rule: "key scripts for the real Tui (headless driver): all scripts up to length 3 over a 24-key alphabet (13 824, exhaustive), seeded random scripts up to 200 keys (ASCII, multi-byte and wide characters, Enter, Tab, BackTab, arrows, Home/End, Backspace/Delete, control chords, command lines from the documented grammar, must-reject lines, hostile lines, `load` of fixture files) at random terminal sizes with resizes, and a sweep of every terminal size 1x1..250x100 with a fixed script set. After every key: no panic in event handling or drawing, cursor <= text length, text/cursor/history equal to the editor model for plain editing keys, machine dump equal to the shadow machine, notification exactly for rejected lines. distinct_nontrivial counts distinct (key class, command class, size class, notification shown, auto-run, step mode) step classes",
+        rule: "key scripts for the real Tui (headless driver): all scripts up to length 3 over a 24-key alphabet (13 824, exhaustive), seeded random scripts up to 200 keys (ASCII, multi-byte and wide characters, Enter, Tab, BackTab, arrows, Home/End, Backspace/Delete, control chords, command lines from the documented grammar, must-reject lines, hostile lines, `load` of fixture files; a tenth of them submit 1-5 lines and then walk the whole history up and down past both ends) at random terminal sizes with resizes, and a sweep of every terminal size 1x1..250x100 with a fixed script set. After every key: no panic in event handling or drawing, cursor <= text length, text/cursor/history equal to the editor model for plain editing keys, machine dump equal to the shadow machine, notification exactly for rejected lines. distinct_nontrivial counts distinct (key class, command class, size class, notification shown, auto-run, step mode) step classes",
         exhaustive: false,
         assumptions: vec![
             "the terminal backend (crossterm raw mode, real tty) is bypassed; the auto-run timing loop is replaced by 10 cycles per frame",
             "lines consisting of a documented command followed by other text, non-canonical numbers, blanks around a command and `exit` are left open; Tab/BackTab/Up/Down results are only checked for cursor <= length and then adopted",
             "`next N` is generated with N <= 2000; a fuel watchdog firing in the driver is inconclusive, not a violation",
         ],
-        floors: vec![("steps_checked", 150_000), ("scripts", 15_000), ("sizes_rendered", 25_000), ("commands_accepted_and_compared", 3_000), ("commands_must_reject", 2_000), ("loads_ok", 100), ("multibyte_keys", 5_000), ("tab_keys", 3_000), ("small_terminal_steps", 5_000)],
+        floors: vec![("steps_checked", 150_000), ("scripts", 15_000), ("sizes_rendered", 25_000), ("commands_accepted_and_compared", 3_000), ("commands_must_reject", 2_000), ("loads_ok", 100), ("multibyte_keys", 5_000), ("tab_keys", 3_000), ("small_terminal_steps", 5_000), ("history_walk_scripts", 500)],
     }
 }
 
@@ -649,6 +649,40 @@ fn session_script(rng: &mut Rng, id: String, fix: &[String]) -> Script {
     Script { id, width: 76 + rng.below(175) as u16, height: 28 + rng.below(73) as u16, keys }
 }
 
+/// Submits a few lines and then walks up and down the whole history (every index, both ends),
+/// now and then editing or re-submitting a recalled line.
+fn history_script(rng: &mut Rng, id: String) -> Script {
+    let mut keys = vec![];
+    let n = 1 + rng.usize(5);
+    for j in 0..n {
+        let line = match rng.below(5) {
+            0 => format!("FC = {}", j),
+            1 => "show register".to_string(),
+            2 => format!("nonsense {}", j),
+            3 => format!("next {}", j),
+            _ => format!("set J{}", 1 + j % 2),
+        };
+        type_line(&mut keys, &line);
+    }
+    // to the oldest entry and beyond, back to the newest and beyond
+    for _ in 0..(n + 2) {
+        keys.push(Key::Up);
+    }
+    for _ in 0..(n + 2) {
+        keys.push(Key::Down);
+    }
+    for _ in 0..(6 + rng.usize(30)) {
+        match rng.below(12) {
+            0..=4 => keys.push(Key::Up),
+            5..=8 => keys.push(Key::Down),
+            9 => keys.push(Key::Enter),
+            10 => keys.push(Key::Char('1')),
+            _ => keys.push(Key::Backspace),
+        }
+    }
+    Script { id, width: 76 + rng.below(100) as u16, height: 28 + rng.below(40) as u16, keys }
+}
+
 fn random_script(rng: &mut Rng, id: String, fix: &[String]) -> Script {
     let (w, h) = match rng.below(10) {
         0 => (1 + rng.below(80) as u16, 1 + rng.below(30) as u16),
@@ -794,7 +828,18 @@ pub fn run(ctx: &Ctx) -> Report {
             run_batch(ctx, &scripts, &format!("z{}", w), rep);
             return;
         }
-        let scripts: Vec<Script> = (0..50).map(|k| if k % 5 == 4 { session_script(&mut rng, format!("r{}_{}", i, k), &fix) } else { random_script(&mut rng, format!("r{}_{}", i, k), &fix) }).collect();
+        let scripts: Vec<Script> = (0..50)
+            .map(|k| {
+                if k % 5 == 4 {
+                    session_script(&mut rng, format!("r{}_{}", i, k), &fix)
+                } else if k % 10 == 3 {
+                    rep.inc("history_walk_scripts");
+                    history_script(&mut rng, format!("r{}_{}", i, k))
+                } else {
+                    random_script(&mut rng, format!("r{}_{}", i, k), &fix)
+                }
+            })
+            .collect();
         if i == 24 + 250 {
             rep.sample(obj![("kind", "random script"), ("width", scripts[0].width), ("height", scripts[0].height), ("keys", J::Arr(scripts[0].keys.iter().take(40).map(|k| k.to_json()).collect()))]);
         }
